@@ -138,6 +138,7 @@ func run(repo, verif, prop, tier, only, dump string, list, verbose bool, timeout
 		fmt.Fprintf(os.Stderr, "load: %v\n", err)
 		return reportEngineFailure(verif, prop, tier, start, "load: "+err.Error())
 	}
+	V.prop = prop
 	// select functions
 	var keys []string
 	for _, k := range V.db.Order {
@@ -194,7 +195,10 @@ func run(repo, verif, prop, tier, only, dump string, list, verbose bool, timeout
 				continue
 			}
 			var sgs []subgoal
+			ex.knownHyps = ex.knownConjuncts(o)
+			ex.knownPath = o.Path
 			ex.splitGoal(o.Goal, nil, &sgs)
+			ex.knownHyps = nil
 			r.Subgoals = len(sgs)
 			if len(sgs) == 0 {
 				r.Status = "discharged"
@@ -254,6 +258,9 @@ func run(repo, verif, prop, tier, only, dump string, list, verbose bool, timeout
 			}
 		}
 	}
+	if dump != "" && os.Getenv("VERIF_DUMPONLY") != "" {
+		return 0
+	}
 	// solve in parallel
 	var mu sync.Mutex
 	var wg sync.WaitGroup
@@ -288,7 +295,7 @@ func run(repo, verif, prop, tier, only, dump string, list, verbose bool, timeout
 						l2 = j.render("light")
 						tag = "(inst)"
 					}
-					sr = SolveN(l2, 30, false, 2)
+					sr = SolveN(l2, 60, false, 2)
 					atomic.AddInt64(&statLight2N, 1)
 					atomic.AddInt64(&statLight2Ns, int64(time.Since(t2)))
 					if sr.Status == "unsat" {
@@ -571,6 +578,7 @@ func report(V *Verifier, verif, repo, prop, tier string, start time.Time, result
 	os.WriteFile(filepath.Join(outRoot, "evidence", prop+".json"), data, 0o644)
 	if os.Getenv("VERIF_PROFILE") != "" {
 		fmt.Fprintf(os.Stderr, "profile: query rendering %.1fs (serialised), solver time %.1fs (summed)\n", float64(buildNs)/1e9, float64(solverMs)/1000)
+		fmt.Fprintf(os.Stderr, "profile: %d goal conjuncts matched hypotheses literally\n", statKnownHits)
 		fmt.Fprintf(os.Stderr, "profile: tiny %d runs %.1fs; light %d runs %.1fs; light2 %d runs %.1fs; full %d runs %.1fs\n", statTinyN, float64(statTinyNs)/1e9, statLightN, float64(statLightNs)/1e9, statLight2N, float64(statLight2Ns)/1e9, statFullN, float64(statFullNs)/1e9)
 	}
 	fmt.Printf("property=%s functions=%d obligations=%d discharged=%d covers=%d/%d violations=%d wall=%.1fs\n", prop, len(fuc), nObl, nDis, nCoverOK, nCover, violations, time.Since(start).Seconds())
